@@ -66,7 +66,8 @@ def gen_doc(r, k):
             u0, u1, u2 = ref(r, name(), "jpg"), ref(r, name(), "jpg"), ref(r, name(), "jpg")
             u1, u2 = u1.replace(",", ""), u2.replace(",", "")
             sep = r.choice([", ", ", ", ",", ",\n      ", " , "])     # minified pages put nothing after the comma
-            add("img", [("src", u0), ("srcset", "%s 1x%s%s 2x" % (u1, sep, u2))]); planted += [("img", u0), ("img", u1), ("img", u2)]
+            d1 = r.choice([" 1x", " 1x", "", " 480w"])      # a candidate may come without a width / density descriptor
+            add("img", [("src", u0), ("srcset", "%s%s%s%s 2x" % (u1, d1, sep if d1 else ", ", u2))]); planted += [("img", u0), ("img", u1), ("img", u2)]
         elif kind == "script":
             u = ref(r, name(), "js", odd=True, relative_only=True); add("script", [("src", u)], void=False); planted.append(("script", u))
         elif kind == "css":
@@ -78,7 +79,10 @@ def gen_doc(r, k):
         elif kind == "picture":
             u1, u2, u3 = ref(r, name(), "webp").replace(",", ""), ref(r, name(), "webp").replace(",", ""), ref(r, name(), "jpg")
             els.append({"tag": "picture", "attrs": [], "text": "", "void": False, "open": True})
-            add("source", [("type", "image/webp"), ("srcset", "%s 480w%s%s 800w" % (u1, r.choice([", ", ",", ",\n  "]), u2))])
+            if r.random() < 0.25:
+                add("source", [("type", "image/webp"), ("srcset", "%s, %s 2x" % (u1, u2))])       # first candidate bare
+            else:
+                add("source", [("type", "image/webp"), ("srcset", "%s 480w%s%s 800w" % (u1, r.choice([", ", ",", ",\n  "]), u2))])
             add("img", [("src", u3)])
             els.append({"close": "picture"})
             planted += [("source", u1), ("source", u2), ("img", u3)]
